@@ -461,7 +461,7 @@ func (e *Engine) doAppend(fr *frame, x *ssa.Call, args []Value, st *State, k fun
 	dst := Ptr{r, c.Const(64, 0)}
 	c.zeroRegion(&st2.heap, r, et)
 	newCap := c.FreshVar("appcap", BV(64))
-	st2.ext = append(st2.ext, extent{r, c.Const(64, 0), c.Mul(newCap, es)})
+	st2.ext = append(st2.ext, extent{R: r, Lo: c.Const(64, 0), Hi: c.Mul(newCap, es)})
 	st2.assume(c.Sle(newLen, newCap))
 	st2.assume(c.Slt(newCap, c.Const(64, 1<<40)))
 	e.allocOblig(fr, st2, txt, c.Mul(newLen, es), x.Pos())
@@ -553,7 +553,7 @@ func (e *Engine) typeInvTerms(fn *ssa.Function, vals []Value, tys []types.Type, 
 	for i, v := range vals {
 		for _, ti := range e.TypeInvs {
 			if e.typeMatches(tys[i], ti) {
-				env := &specEnv{e: e, heap: heap, vars: map[string]SVal{ti.Var: {V: v, T: tys[i]}}, bound: map[string]*Term{}}
+				env := &specEnv{e: e, heap: heap, vars: map[string]SVal{ti.Var: {V: v, T: tys[i]}}, bound: map[string]*Term{}, assume: e.tiAssume, ext: e.curExt}
 				if p, ok := e.P.All[ti.PkgPath]; ok {
 					env.pkg = p.Types
 				}
@@ -695,9 +695,12 @@ func (e *Engine) contractCall1(fr *frame, x *ssa.Call, fn *ssa.Function, spec *F
 	e.flushWF(st)
 	if !spec.NoTypeInv {
 		vs, tys, names := paramInfo(fn, args)
+		e.tiAssume = true
 		for _, nt := range e.typeInvTerms(fn, vs, tys, names, &st.heap) {
 			st.assume(nt.t)
 		}
+		e.tiAssume = false
+		e.flushWF(st)
 	}
 	k(st, resultValue(results))
 }
@@ -909,7 +912,7 @@ var externPure = map[string]string{
 	"strconv.FormatBool": "val", "strconv.ParseInt": "val", "strconv.ParseUint": "val", "strconv.ParseFloat": "val", "strconv.ParseBool": "val", "strconv.Atoi": "val",
 	"strings.ToLower": "val", "strings.ToUpper": "val", "strings.TrimSpace": "val", "strings.HasPrefix": "val", "strings.HasSuffix": "val",
 	"strings.Contains": "val", "strings.Index": "val", "strings.EqualFold": "val", "unicode/utf8.ValidString": "val", "unicode/utf8.Valid": "val",
-	"math.IsNaN": "val", "math.IsInf": "val", "reflect.TypeOf": "val", "reflect.ValueOf": "val",
+	"bytes.Equal": "val", "bytes.Compare": "val", "math.IsNaN": "val", "math.IsInf": "val", "reflect.TypeOf": "val", "reflect.ValueOf": "val",
 }
 
 // externCall handles static calls to functions outside the repository that are not inlined.
